@@ -468,8 +468,8 @@ func c10HandshakeBurst(r *ev.Result) int {
 	}
 	defer w.Stop()
 	n := 0
-	for round := 0; round < 6; round++ {
-		const clients = 48
+	for round := 0; round < 25; round++ {
+		const clients = 64
 		var (
 			wg    sync.WaitGroup
 			mu    sync.Mutex
